@@ -36,6 +36,11 @@ func (r *Router) handleIncomingTraffic(w *mgr.WorkerCtx, f frame.Frame) error {
 	if len(packetData) < 44 {
 		return fmt.Errorf("packet too small: %d bytes", len(packetData))
 	}
+	// Only IPv6 packets are carried. The checks below read the addresses at
+	// their IPv6 offsets; the local network stack goes by the version.
+	if ipVersion := packetData[0] >> 4; ipVersion != 6 {
+		return fmt.Errorf("invalid packet: IP version %d", ipVersion)
+	}
 	src := netip.AddrFrom16([16]byte(packetData[8:24]))
 	dst := netip.AddrFrom16([16]byte(packetData[24:40]))
 	var (
